@@ -324,4 +324,28 @@ pub proof fn lemma_u128_one_shl(t: u32)
     }
 }
 
+
+/// u32::leading_zeros in arithmetic form (T-std; vstd's own axiom is bit-indexed): 2^(31-lz) <= n < 2^(32-lz)
+#[verifier::external_body]
+pub proof fn axiom_u32_lz_arith(n: u32)
+    ensures
+        n == 0 ==> u32_leading_zeros(n) == 32,
+        n != 0 ==> u32_leading_zeros(n) < 32
+            && pow2((31 - u32_leading_zeros(n)) as nat) <= n as nat
+            && (n as nat) < pow2((32 - u32_leading_zeros(n)) as nat),
+{}
+
+/// n <= 2^26 has at least 5 leading zero bits (so n * bitlen(n) <= 2^26 * 27 < 2^32)
+pub proof fn lemma_lz_bound(n: u32)
+    requires 0 < n <= 0x400_0000
+    ensures u32_leading_zeros(n) >= 5
+{
+    axiom_u32_lz_arith(n);
+    let lz = u32_leading_zeros(n);
+    if lz < 5 {
+        lemma2_to64();
+        lemma_pow2_strictly_increases(26, (31 - lz) as nat);
+    }
+}
+
 } // verus!
